@@ -17,6 +17,7 @@ EXPLANATION = (
     "the quarter table, the time signatures, first/last point and the first measure; (OWN-beat) the beat-mode flag and "
     "TimeSignature.musical_beats are written only by their owners and defaults come from MUSICAL_BEATS; (QDMAP) the "
     "quarter-duration map is a previous-value interpolator clamped to the first/last entry."
+    ' Also (F2b/F2c/F2d/F2h, shared with C01) every write of the quarter table refreshes the cached map, its index arithmetic stays in range on every order type, and the change is propagated over the affected slice.'
 )
 NOT_DECIDED = [
     "exact values at arbitrary positions, continuity and monotonicity across change points, single-point parts: arithmetic over "
